@@ -99,3 +99,15 @@ META["C08"] = M(
          "diag(A,k) and trace(A) compared with the reference; the rule selected for the top call is observed through the "
          "dispatch tap: a structural rule may refuse (counted), the generic probing may not; structural answers are also "
          "compared with the generic probing of the same operator; distinct = structure + k + alg")
+
+META["C09"] = M(
+    shards={"quick": 16, "thorough": 64}, budget={"quick": 50, "thorough": 800},
+    floors={"quick": {"evals": 2500, "distinct": 1000}, "thorough": {"evals": 60000, "distinct": 25000}},
+    required=["action", "sqrt-twice-is-A", "pow-1-is-inverse", "integer-power-is-repeated-product"],
+    rule="operators with controlled spectrum (Hermitian positive definite declared PSD, singular PSD for exp, general with "
+         "eigenvalues in the open right half plane and cond(V) <= 3, complex Hermitian) as leaves and under every structural "
+         "rule (Diagonal, BlockDiag with multiplicities, Identity, ScalarMul, Transpose, Adjoint, KronSum for exp, Kronecker "
+         "for pow); functions exp/log/sqrt/isqrt/pow(a in {-2,-1,-0.5,0,0.5,1,2,3,9,10,2.5})/apply_unary(x^3+1, cos); algorithm "
+         "omitted/Auto/Eigh/Eig/Lanczos/Arnoldi with max_iters n, n+3 and the default; f(A)@v compared per column with "
+         "V f(L) V^-1 v of the reference (principal branch), single and multi-column operands with norms spread over 12 orders; "
+         "distinct = structure + function + exponent + algorithm + iteration cap + operand rank")
